@@ -74,6 +74,15 @@ def gen_hash_case(rng):
             fmt = vars_[i][1]
             v = sx(rng.getrandbits(64), fmt)
             ops.append(["pywrite", i, v])
+            if rng.random() < 0.25:
+                # a value outside the format's range (rejected or wrapped:
+                # the statement says nothing; buffers must still be right)
+                size = struct.calcsize(fmt)
+                oob = rng.choice([-1, -rng.getrandbits(8 * size - 1) - 1,
+                                  1 << (8 * size), (1 << (8 * size)) + 5]) \
+                    if not fmt.islower() else rng.choice(
+                        [1 << (8 * size - 1), -(1 << (8 * size - 1)) - 1])
+                ops.append(["pywrite_oob", i, oob])
         elif r < 0.7:
             ops.append(["pyread", rng.randrange(nv)])
         else:
@@ -151,6 +160,16 @@ def check_hash(case, res, monitor=False):
                             f"e.{n} = {op[2]} left kernel value {got}",
                             case=dict(kind="hash", **case))
                         return mon
+                elif op[0] == "pywrite_oob":
+                    n, f, _ = case["vars"][op[1]]
+                    try:
+                        setattr(e, n, op[2])
+                        res.count("hash_oob_write_accepted")
+                    except Exception:
+                        res.count("hash_oob_write_rejected")
+                    got = raw(op[1])
+                    if got is not None:
+                        cells[op[1]] = got      # whatever it did: resync
                 elif op[0] == "pyread":
                     n, f, _ = case["vars"][op[1]]
                     got = getattr(e, n)
@@ -280,6 +299,10 @@ def gen_dict_case(rng):
                                      for f in vf2],
                      lfmt=rng.choice("BHIQ"), lval=rng.getrandbits(8) | 1,
                      key2=rng.getrandbits(31))
+        for _ in range(rng.randint(1, 4)):
+            ops.insert(rng.randint(0, len(ops)),
+                       ["bpf_touch", rng.randrange(nkeys),
+                        sx(rng.getrandbits(64), "q")])
     return dict(kf=kf, vf=vf, keys=keys, ops=ops, lru=rng.random() < 0.3,
                 extra=extra)
 
@@ -314,6 +337,9 @@ def build_dict(case):
         ns["hv"] = ns["hm"].globalVar("Q", 100)
         ns["lv"] = LocalVar(extra["lfmt"])
         ns["lvout"] = m.globalVar("Q")
+        ns["hnew"] = ns["hm"].globalVar("q", 0)
+        ns["tstamp"] = m.globalVar("Q")
+        ns["noise"] = m.globalVar("I")
 
     def program(self):
         e = self
@@ -345,6 +371,20 @@ def build_dict(case):
                 e.missed = 1
             e.r0 = 2
             e.exit()
+        if extra:
+            # helper calls and a hash-map variable read while the looked-up
+            # entry is held
+            from ebpfcat.ebpf import ktime, prandom
+            with e.op == 5:
+                with e.d.lookup() as (value, Else):
+                    e.found = 1
+                    e.tstamp = ktime(e)
+                    e.noise = prandom(e) & 0xff
+                    setattr(value, "v0", e.hnew)
+                with Else:
+                    e.missed = 1
+                e.r0 = 2
+                e.exit()
         for mi in range(len(vf)):
             for how, opno in (("set", 10), ("iadd", 30)):
                 if how == "iadd" and vf[mi] not in "iIqQ":
@@ -573,6 +613,26 @@ def check_dict(case, res, monitor=False):
                             return fail("unexplained:dict-bpf-lookup-value",
                                         f"program read {got}, model {want}",
                                         op) or mon
+                elif op[0] == "bpf_touch":
+                    bpf_inputs(op[1], op=5)
+                    e.hnew = op[2]
+                    ld.run_k(bytes(64))
+                    res.count("dict_touch_with_calls_and_hash_read")
+                    if (e.found, e.missed) != ((1, 0) if kb in model
+                                               else (0, 1)):
+                        return fail("unexplained:dict-bpf-lookup-branch",
+                                    "touch: wrong branch", op) or mon
+                    if e.hnew != op[2]:
+                        return fail(
+                            "unexplained:dict-hash-variable",
+                            f"hash variable reads {e.hnew} after the "
+                            f"program only read it (Python wrote {op[2]})",
+                            op) or mon
+                    if kb in model:
+                        b = bytearray(model[kb])
+                        struct.pack_into("<" + vf[0], b, vlay[0][0],
+                                         sx(op[2], vf[0]))
+                        model[kb] = bytes(b)
                 elif op[0] == "bpf_modify":
                     mi, how = op[2], op[4]
                     f = vf[mi]
